@@ -41,8 +41,18 @@ AngMul(j) == IF j = 0 THEN << R(1), R(0) >>
 \* metrics of the Gaussian family: M = Q diag(1 / k_i^2) Q'  with rational orthogonal Q and integer k_i
 Rot3 == << << <<3, 5>>, <<-4, 5>>, R(0) >>, << <<4, 5>>, <<3, 5>>, R(0) >>, << R(0), R(0), R(1) >> >>
 GQ(metric) == IF metric = "rotk" THEN Rot3 ELSE MIdentity(N)
-GK(metric) == IF metric = "identity" THEN <<1, 1, 1>> ELSE <<1, 2, 3>>
-GMetric(metric) == MMul(GQ(metric), MMul(MDiag([i \in 1..N |-> <<1, GK(metric)[i] * GK(metric)[i]>>]), MTranspose(GQ(metric))))
+\* frequencies k_i (rationals) and the phase advance of coordinate i per unit of the time index j, in multiples of
+\* theta.  For "diaghalf" = diag(4, 1, 4) the frequencies are 1/2, 1, 1/2 and the time unit is 2 theta (phases 1, 2, 1
+\* per unit): non-commensurate with a reduction of the time modulo 2 pi.
+GK(metric) == CASE metric = "identity" -> << R(1), R(1), R(1) >>
+                [] metric = "diagk2" -> << R(1), R(2), R(1) >>
+                [] metric = "diaghalf" -> << <<1, 2>>, R(1), <<1, 2>> >>
+                [] OTHER -> << R(1), R(2), R(3) >>
+GPh(metric) == CASE metric = "identity" -> <<1, 1, 1>>
+                 [] metric = "diagk2" -> <<1, 2, 1>>
+                 [] metric = "diaghalf" -> <<1, 2, 1>>
+                 [] OTHER -> <<1, 2, 3>>
+GMetric(metric) == MMul(GQ(metric), MMul(MDiag([i \in 1..N |-> QDiv(R(1), QMul(GK(metric)[i], GK(metric)[i]))]), MTranspose(GQ(metric))))
 
 IsGaussSys(s) == s \in {"Gaussian", "GaussianConstrained"}
 MetricOf(s, metric) == IF IsGaussSys(s) THEN GMetric(metric) ELSE ConstMetric(metric)
@@ -56,9 +66,9 @@ H2Flow(s, metric, qq, pp, t) ==
   ELSE LET Q == GQ(metric)
            qt == Vec(MMul(MTranspose(Q), Col(qq)))
            pt == Vec(MMul(MTranspose(Q), Col(pp)))
-           cs == TLCEval([i \in 1..N |-> AngMul(GK(metric)[i] * t)])
-           q2 == TLCEval([i \in 1..N |-> QAdd(QMul(cs[i][1], qt[i]), QMul(QMul(R(GK(metric)[i]), cs[i][2]), pt[i]))])
-           p2 == TLCEval([i \in 1..N |-> QSub(QMul(cs[i][1], pt[i]), QMul(QMul(<<1, GK(metric)[i]>>, cs[i][2]), qt[i]))])
+           cs == TLCEval([i \in 1..N |-> AngMul(GPh(metric)[i] * t)])
+           q2 == TLCEval([i \in 1..N |-> QAdd(QMul(cs[i][1], qt[i]), QMul(QMul(GK(metric)[i], cs[i][2]), pt[i]))])
+           p2 == TLCEval([i \in 1..N |-> QSub(QMul(cs[i][1], pt[i]), QMul(QMul(QDiv(R(1), GK(metric)[i]), cs[i][2]), qt[i]))])
        IN [q |-> Vec(MMul(Q, Col(q2))), p |-> Vec(MMul(Q, Col(p2)))]
 
 H2Energy(s, metric, qq, pp) ==
@@ -84,12 +94,14 @@ Twice(t) == IF IsGaussSys(c.sys) THEN 2 * t ELSE QMul(R(2), t)
 Flow(qq, pp, t) == H2Flow(c.sys, c.metric, qq, pp, t)
 Out == TLCEval(Flow(Qs, Ps, T))
 
-\* sanity of the oracle
+\* sanity of the oracle (the quadratic energy and the doubled time square / double the denominators 5^m: they are
+\* evaluated only while that fits TLC's 32-bit integers)
+MaxPhase == IF IsGaussSys(c.sys) THEN (IF T < 0 THEN -T ELSE T) * 3 ELSE 0
 \* (for the Euclidean-type flows the momentum, and with it h2, is literally unchanged)
-ConservesEnergy == IF IsGaussSys(c.sys) THEN H2Energy(c.sys, c.metric, Out.q, Out.p) = H2Energy(c.sys, c.metric, Qs, Ps)
+ConservesEnergy == IF IsGaussSys(c.sys) THEN (MaxPhase <= 3 => H2Energy(c.sys, c.metric, Out.q, Out.p) = H2Energy(c.sys, c.metric, Qs, Ps))
                    ELSE Out.p = Ps
 UndoneByNegativeTime == LET b == Flow(Out.q, Out.p, Neg(T)) IN b.q = Qs /\ b.p = Ps
-AdditiveInTime == LET b == Flow(Out.q, Out.p, T) d == Flow(Qs, Ps, Twice(T)) IN b.q = d.q /\ b.p = d.p
+AdditiveInTime == MaxPhase <= 3 => LET b == Flow(Out.q, Out.p, T) d == Flow(Qs, Ps, Twice(T)) IN b.q = d.q /\ b.p = d.p
 MetricPosDef == MIsPosDef(MetricOf(c.sys, c.metric))
 
 \* Jacobian blocks with respect to the initial momentum: the flow is linear, apply it to unit momenta
